@@ -51,6 +51,7 @@ type scenCfg struct {
 	CurvesS     []int    `json:"curvesS"`
 	Resume      bool     `json:"resume"` // both session stores pre-populated with the same session
 	Stores      bool     `json:"stores"` // session stores present (empty unless Resume)
+	StaleC      bool     `json:"staleC"` // stores present, only the CLIENT's holds a session: it offers an id the server does not know
 	Window      int      `json:"window"`
 	IntervalMS  int      `json:"intervalMs"` // 0 => virtual timers only (1h real interval)
 	NoBackoff   bool     `json:"noBackoff"`
@@ -424,9 +425,12 @@ func (s *scenCfg) buildOptions(st *scenStores) ([]ClientOption, []ServerOption) 
 	if len(s.CurvesS) > 0 {
 		so = append(so, WithEllipticCurves(toCurves(s.CurvesS)...))
 	}
-	if (s.Resume || s.Stores) && st != nil {
+	if (s.Resume || s.Stores || s.StaleC) && st != nil {
 		if st.c == nil {
 			st.c, st.s = newLabStore(), newLabStore()
+		}
+		if s.StaleC {
+			_ = st.c.Set([]byte("s_"+labServerName), Session{ID: labSessID, Secret: labSessSecret})
 		}
 		if s.Resume {
 			_ = st.c.Set([]byte("s_"+labServerName), Session{ID: labSessID, Secret: labSessSecret})
